@@ -536,6 +536,12 @@ pub fn evaluate(prog: &Program, out: &RunOut) -> (Vec<Viol>, Feat) {
         }
         if let Res::Dropped(n) = o.res {
             f.add(if n == 0 { "future_drop_unpolled" } else { "future_drop_polled" }, 1);
+            if n > 0 && o.k.is_recv() {
+                // did the dropped receive future consume a value?
+                let gi = ops.iter().position(|x| std::ptr::eq(x, o)).unwrap_or(usize::MAX) as u32;
+                let consumed = a.led.pays.iter().any(|p| p.drops.iter().any(|d| !d.harness && d.in_op == gi && p.by_op != gi));
+                f.add(if consumed { "recv_future_dropped_after_claim" } else { "recv_future_dropped_while_pending" }, 1);
+            }
         }
         if o.k == K::Close && o.res == Res::Unit {
             f.add("close_ok", 1);
